@@ -28,6 +28,7 @@ let print_evs b evs =
     | Dn d -> Buffer.add_string b " D"; add_hex b d
     | Snd r -> Buffer.add_string b (" S" ^ string_of_z r)
     | Mark _ -> ()
+    | Hdr _ -> ()
     | EFault -> Buffer.add_string b " FAULT"
     | ELive -> Buffer.add_string b " LIVE") evs
 
@@ -46,10 +47,15 @@ let print_qevs b evs =
     | QC c -> Buffer.add_string b (if c then " C1" else " C0")
     | QPart _ -> ()) evs
 
-(* a layer over the scripted socket: state, feed function, send function *)
-let layer_ops b feedf sendf ops =
+(* a layer over the scripted socket: [mk ()] gives a fresh instance as (events of construction, feed, send);
+   a "|" token starts over on a fresh instance *)
+let layer_ops_init b mk ops =
+  let fresh () = let (e0, fd, sd) = mk () in print_evs b e0; (fd, sd) in
+  let inst = ref (fresh ()) in
   List.iter (fun op ->
-    if String.length op >= 2 && op.[1] = ':' then begin
+    if op = "|" then begin Buffer.add_string b " |"; inst := fresh () end
+    else if String.length op >= 2 && op.[1] = ':' then begin
+      let (feedf, sendf) = !inst in
       let arg = String.sub op 2 (String.length op - 2) in
       match op.[0] with
       | 'f' -> print_evs b (feedf (hex_to_list arg))
@@ -57,6 +63,7 @@ let layer_ops b feedf sendf ops =
       | 'r' -> print_evs b (sendf true (bufs_of arg))
       | _ -> ()
     end) ops
+let layer_ops b mk ops = layer_ops_init b (fun () -> let (fd, sd) = mk () in ([], fd, sd)) ops
 
 let () = read_lines (fun l ->
   match split_ws l with
@@ -71,16 +78,49 @@ let () = read_lines (fun l ->
         | 'r' -> Some (QSend (true, bufs_of (String.sub op 2 (String.length op - 2))))
         | 'w' -> Some QWritable | 'c' -> Some QCanSend | 'z' -> Some QDrain | _ -> None in
       match o with
-      | Some o -> let (s', e) = q_step g !st o in st := s'; print_qevs b e
+      | Some o -> (match o with QSend _ -> Buffer.add_string b " +" | _ -> ());
+        let (s', e) = q_step g !st o in st := s'; print_qevs b e
       | None -> ()) ops;
     print_endline (Buffer.contents b)
   | id :: "T" :: compat :: ops ->
     let b = Buffer.create 1024 in
     Buffer.add_string b id;
-    let w = ref { inner = turn_init (z_of_string compat); dead = Z0 } in
-    layer_ops b
-      (fun chunk -> let (w', e) = feed turn_body !w chunk in w := w'; e)
-      (fun rel bufs -> turn_send !w.inner rel bufs) ops;
+    layer_ops b (fun () ->
+      let w = ref { inner = turn_init (z_of_string compat); dead = Z0 } in
+      ((fun chunk -> let (w', e) = feed turn_body !w chunk in w := w'; e),
+       (fun rel bufs -> turn_send !w.inner rel bufs))) ops;
+    print_endline (Buffer.contents b)
+  | id :: "P" :: compat :: ops ->
+    let b = Buffer.create 1024 in
+    Buffer.add_string b id;
+    let c = z_of_string compat in
+    layer_ops_init b (fun () ->
+      let w = ref { inner = pssl_init c; dead = Z0 } in
+      ([Dn (pssl_hello c)],
+       (fun chunk -> let (w', e) = feed (pssl_body (zi 190)) !w chunk in w := w'; e),
+       (fun rel bufs -> let (s', e) = pssl_send !w.inner rel bufs in w := { !w with inner = s' }; e))) ops;
+    print_endline (Buffer.contents b)
+  | id :: "S" :: g :: user :: pass :: addr :: ops ->
+    let b = Buffer.create 1024 in
+    Buffer.add_string b id;
+    let g = z_of_string g in
+    let o s = if s = "-" then None else Some (hex_to_list s) in
+    layer_ops_init b (fun () ->
+      let s0 = socks_init (o user) (o pass) (hex_to_list addr) in
+      let w = ref { inner = s0; dead = Z0 } in
+      ([Dn (socks_greeting s0)],
+       (fun chunk -> let (w', e) = feed (socks_body g) !w chunk in w := w'; e),
+       (fun rel bufs -> let (s', e) = socks_send !w.inner rel bufs in w := { !w with inner = s' }; e))) ops;
+    print_endline (Buffer.contents b)
+  | id :: "H" :: g :: ops ->
+    let b = Buffer.create 1024 in
+    Buffer.add_string b id;
+    let g = z_of_string g in
+    layer_ops_init b (fun () ->
+      let w = ref { inner = http_init; dead = Z0 } in
+      ([],
+       (fun chunk -> let (w', e) = feed (http_body g) !w chunk in w := w'; e),
+       (fun rel bufs -> let (s', e) = http_send !w.inner rel bufs in w := { !w with inner = s' }; e))) ops;
     print_endline (Buffer.contents b)
   | id :: _ -> print_endline (id ^ " ?")
   | _ -> ())
